@@ -1101,3 +1101,38 @@ func genMultiPath(r *rand.Rand, stream string, statFault bool) *Case {
 	}
 	return c
 }
+
+// genMultiFaults: a multi-root case over shared content with 1..2 faults (open-dir, readdir, open/fstat of a file, stat of a
+// root) in chosen roots: a fault in one root must not change what another root yields.
+func genMultiFaults(r *rand.Rand) *Case {
+	c := genMultiShared(r, "multiroot-faults")
+	c.StatReq = nil
+	if r.Intn(2) == 0 {
+		c.MaxSize = 0
+	}
+	nf := 1 + r.Intn(2)
+	var notes []string
+	for i := 0; i < nf; i++ {
+		k := r.Intn(len(c.Roots))
+		ss := sites(c.Roots[k])
+		var usable []site
+		for _, s := range ss {
+			if s.op == "stat" && s.path != "." {
+				continue // lazy stat: kept for the single-root stream
+			}
+			if strings.HasSuffix(s.path, ".gitignore") {
+				continue
+			}
+			usable = append(usable, s)
+		}
+		if len(usable) == 0 {
+			continue
+		}
+		s := usable[r.Intn(len(usable))]
+		inject(c.Roots[k], s, []string{"perm", "other"}[r.Intn(2)])
+		notes = append(notes, fmt.Sprintf("%s:root%d/%s:%d", s.op, k, s.path, s.k))
+	}
+	c.Note = strings.Join(notes, ",")
+	c.Fatal = r.Intn(6) == 0
+	return c
+}
